@@ -261,8 +261,34 @@ def setup():
         WARMUP["connections"] = 3
     finally:
         lst.close()
-    socketutil.time = type("NoSleep", (), {"sleep": staticmethod(lambda s: None)})
+    socketutil.time = VTIME        # virtual time for the module under test: sleeping advances the clock instead of waiting
     return socketutil, errors
+
+
+class VirtualTime:
+    """stands in for the `time` module inside socketutil: retry back-off 'sleeps' cost nothing, but they do advance the clock that the
+    module may consult (a whole minute of back-off can be scripted in microseconds)"""
+
+    def __init__(self):
+        self.now = 1000.0
+
+    def sleep(self, s):
+        self.now += max(0.0, float(s))
+
+    def monotonic(self):
+        return self.now
+
+    def time(self):
+        return 1.7e9 + self.now
+
+    def perf_counter(self):
+        return self.now
+
+    def __getattr__(self, name):
+        return getattr(__import__("time"), name)
+
+
+VTIME = VirtualTime()
 
 
 WARMUP = {"connections": 0}
@@ -377,6 +403,10 @@ def run_shard(shard, rec):
                         script.append(("e", r.choice([errno.ECONNRESET, errno.EPIPE, errno.ENOTCONN, errno.EALREADY, errno.ECONNABORTED, errno.EHOSTUNREACH])))
                     else:
                         script.append(("t",))
+                if r.random() < 0.15:
+                    # a peer that accepts a little, then is not ready for a long while (many retryable errors in a row: the back-off adds up to
+                    # far more than the socket's timeout), then takes the rest: the data still goes out completely
+                    script = [("a", r.choice([1, 5, 1460]))] + [("e", r.choice([errno.EAGAIN, errno.EINTR]))] * r.randrange(8, 30) + script
                 script = tuple(script)
                 timeout = r.choice([None, 0.5])
                 key = ("w", n, script, timeout)
